@@ -36,6 +36,8 @@ var histPaths = []string{
 	// in one role must not be used for the other
 	`$["a"]`, `$[?(@ == '"a"')]`, `$[?(@.a == '"a"')]`, `$['a']`, `$[?(@ == "'a'")]`, `$["b"]`, `$[?(@ == '"b"')]`, `$.a\.b`, `$['a\\.b']`, `$[?(@ == 'a\.b')]`, `$[?(@ =~ /a\.b/)]`,
 	`$["a\nb"]`, `$[?(@ == '"a\nb"')]`, `$[?(@ == 'a')]`, `$.a`, `$[?(@ =~ /a/)]`, `$['"a"']`,
+	// degenerate tokens: the empty regex, the empty string literal, the empty names
+	`$[?(@.a =~ //)]`, `$[?(@ =~ //)]`, `$.s[?(@ =~ //)]`, `$[?(@.a == '')]`, `$['']`, `$[""]`, `$[?(@ == "")]`,
 }
 
 var histDocs = []string{`{"a":1,"b":[1,2,{"c":3}]}`, `[{"a":1},{"a":2,"b":1},[1,2,3]]`, `{"a":{"c":1},"b":{"c":2}}`, `[[1,2],[3]]`,
